@@ -249,7 +249,7 @@ func TestC07(t *testing.T) {
 				ev.ClassN("guard-grid(method x tracker state)", n)
 			}
 			var steps, excluded int64
-			r.Rapid("rapid", rig.Pick(6000, 40000), func(t *rapid.T) {
+			r.Rapid("rapid", rig.Pick(30000, 120000), func(t *rapid.T) {
 				ops := asmcat.GenHistory(t, asmcat.GenOpts{MaxOps: rig.Pick(30, 100), SetBase: true, Assume: true, BadGuard: true, Straight: true})
 				bank := byte(0)
 				if len(ops) > 0 && ops[0].Kind == "setbase" {
